@@ -165,8 +165,10 @@ def run_contract_all(case):
         order_promised = False
         strip = False
     elif route == "matmul":
-        if n != 2 or hyper:
-            raise Reject("@ needs two tensors")
+        if n != 2 or hyper or G.net_has_repeat(desc):
+            # Tensor.__matmul__ is the documented tensordot shortcut over labels *shared by the two tensors*; a label
+            # repeated on one tensor is not traced by it (that corner belongs to contract / tensor_contract)
+            raise Reject("@ needs two plain tensors")
         t1, t2 = list(tn)
         if set(want) != set(G.net_outer(desc)):
             raise Reject("matmul has no output_inds")
